@@ -27,7 +27,14 @@ pub enum Ev {
     /// client cancels; the broker delivers `extra` more messages before CancelOk
     ClientCancel { c: u16, extra: u8 },
     /// drop the Consumer (implicit cancel); the receiver handle is kept by the harness
-    DropConsumer { c: u16, extra: u8 },
+    DropConsumer {
+        c: u16,
+        extra: u8,
+        /// the Consumer is dropped by a panic unwinding through its owner (a worker that panics
+        /// while it holds a consumer) instead of an ordinary drop
+        #[serde(default)]
+        unwinding: bool,
+    },
     /// forget the Consumer without cancelling (mem::forget): it stays registered
     Forget { c: u16 },
     ServerCancel { c: u16, nowait: bool },
@@ -246,7 +253,7 @@ pub fn exec(c: &Case) -> Outcome {
                         return Err("barrier failed after deliver".into());
                     }
                 }
-                Ev::ClientCancel { c, extra } | Ev::DropConsumer { c, extra } => {
+                Ev::ClientCancel { c, extra } | Ev::DropConsumer { c, extra, .. } => {
                     if recs.is_empty() {
                         continue;
                     }
@@ -285,7 +292,16 @@ pub fn exec(c: &Case) -> Outcome {
                             // the consumer's queue goes away with it: nothing to compare later
                             recs[k].rx = None;
                         }
-                        consumers[k] = None; // Drop => cancel
+                        let cons = consumers[k].take();
+                        if matches!(ev, Ev::DropConsumer { unwinding: true, .. }) {
+                            // Drop => cancel also when the drop happens during unwinding
+                            let _ = std::panic::catch_unwind(std::panic::AssertUnwindSafe(move || {
+                                let _owned = cons;
+                                panic!("avh-intentional-unwind");
+                            }));
+                        } else {
+                            drop(cons); // Drop => cancel
+                        }
                     } else {
                         let r = consumers[k].as_ref().unwrap().cancel();
                         if live && !already_cancelled {
@@ -551,6 +567,9 @@ pub fn exec(c: &Case) -> Outcome {
     // every consumer queue: deliveries in order, one terminal, then disconnected
     let mut nontrivial = false;
     let mut labels = Vec::new();
+    if c.events.iter().any(|e| matches!(e, Ev::DropConsumer { unwinding: true, .. })) {
+        labels.push("consumer-dropped-while-unwinding".to_string());
+    }
     for (k, (_ch_idx, tag, rx, bodies, term, _cc, causes, between)) in d.recs.iter().enumerate() {
         if *causes >= 2 || *between {
             nontrivial = true;
@@ -673,7 +692,7 @@ fn strat(_t: Tier) -> BoxedStrategy<Case> {
         5 => (0u8..3).prop_map(|ch| Ev::Consume { ch }),
         8 => (any::<u16>(), any::<u16>()).prop_map(|(c, len)| Ev::Deliver { c, len }),
         3 => (any::<u16>(), 0u8..4).prop_map(|(c, extra)| Ev::ClientCancel { c, extra }),
-        3 => (any::<u16>(), 0u8..4).prop_map(|(c, extra)| Ev::DropConsumer { c, extra }),
+        3 => (any::<u16>(), 0u8..4, prop::bool::weighted(0.3)).prop_map(|(c, extra, unwinding)| Ev::DropConsumer { c, extra, unwinding }),
         1 => any::<u16>().prop_map(|c| Ev::Forget { c }),
         3 => (any::<u16>(), any::<bool>()).prop_map(|(c, nowait)| Ev::ServerCancel { c, nowait }),
         1 => (0u8..3).prop_map(|ch| Ev::ClientCloseChannel { ch }),
@@ -695,7 +714,7 @@ fn strat(_t: Tier) -> BoxedStrategy<Case> {
 pub fn parts() -> Vec<Box<dyn PartDyn>> {
     vec![Box::new(Part::<Case> {
         name: "e2e",
-        rule: "histories of up to 40 events (consume, deliver, client cancel with 0-3 deliveries sent before CancelOk, second cancel, drop (with or without a kept receiver), forget, server cancel nowait/not, client/server channel close, client/server connection close) over 1-3 channels, driven by one thread with FIFO barriers so the broker script is the single source of order; oracle: per consumer the receiver yields exactly the model's deliveries in order, one terminal naming the first cause, then disconnect; one Basic.Cancel per cancelled/dropped consumer, CancelOk per server cancel iff not nowait; non-trivial = a delivery between cancel and CancelOk or >=2 candidate terminal causes for one consumer; distinct by case hash",
+        rule: "histories of up to 40 events (consume, deliver, client cancel with 0-3 deliveries sent before CancelOk, second cancel, drop (with or without a kept receiver; ordinarily or by a panic unwinding through the owner), forget, server cancel nowait/not, client/server channel close, client/server connection close) over 1-3 channels, driven by one thread with FIFO barriers so the broker script is the single source of order; oracle: per consumer the receiver yields exactly the model's deliveries in order, one terminal naming the first cause, then disconnect; one Basic.Cancel per cancelled/dropped consumer, CancelOk per server cancel iff not nowait; non-trivial = a delivery between cancel and CancelOk or >=2 candidate terminal causes for one consumer; distinct by case hash",
         cases: |t| t.pick(4000, 60_000),
         threads: 16,
         strategy: strat,
